@@ -2,6 +2,7 @@ package mon
 
 import (
 	"fmt"
+	"math"
 	"regexp"
 	"runtime"
 	"sort"
@@ -598,6 +599,9 @@ func c15Values(r *rng.R, n int) []any {
 			vals[i] = nil
 		case 3:
 			vals[i] = float64(i) + 0.5
+			if r.Chance(1, 3) { // zeros of either sign: the function's result is the stored one, also where it compares equal to the argument
+				vals[i] = math.Copysign(0, float64(1-2*r.Intn(2)))
+			}
 		case 4:
 			vals[i] = fmt.Sprintf("s%d", i%3) // duplicates
 		default:
@@ -739,6 +743,9 @@ func pureFn(i int, v any) any {
 	case string:
 		return fmt.Sprintf("%s@%d", x, i)
 	case float64:
+		if i%3 == 1 {
+			return -x
+		}
 		return x / 4
 	case nil:
 		return i
